@@ -181,7 +181,9 @@ def rpcReplTcp (ovf : Bool) (s : RpcSt) (ci : ClientInfo) (d : Bytes) : Except S
       | .error e => .error e
       | .ok resp =>
         let l := resp.length
-        .ok (s', some ([byte (l / 16777216 % 256 + (if l / 16777216 % 256 < 128 then 128 else 0)),
+        -- the call has been answered: the stored parser state is reset (`*pstate = ProtocolState::new()`),
+        -- the next call on the connection is parsed from scratch
+        .ok ({}, some ([byte (l / 16777216 % 256 + (if l / 16777216 % 256 < 128 then 128 else 0)),
                         byte (l / 65536), byte (l / 256), byte l] ++ resp))
     else .ok (s', none)
 
